@@ -344,7 +344,8 @@ def impl(job):
                     continue
                 c = CsvPath()
                 c.parse(f"${fname}[*][yes()]")
-                m = c.parse(f"{oc}${fname}[*]{t}", disposably=True)
+                oc, _, after = oc.partition("\x00")       # an outer comment above and / or below the csvpath
+                m = c.parse(f"{oc}${fname}[*]{t}{after}", disposably=True)
                 out["trees"].append(real_tree(m))
                 out["notes"].append(None)
             except Exception as ex:  # noqa
@@ -355,7 +356,7 @@ def impl(job):
             try:
                 c2 = CsvPath()
                 c2.config.csvpath_errors_policy = ["collect"]
-                c2.parse(f"{oc}${fname}[*]{t}")
+                c2.parse(f"{oc}${fname}[*]{t}{after}")
                 lines = c2.collect()
                 out["runs"].append({"lines": [list(map(str, l)) for l in lines], "vars": repr(sorted((k, repr(v)) for k, v in c2.variables.items())),
                                     "counts": [c2.line_monitor.physical_line_number, c2.current_match_count if hasattr(c2, "current_match_count") else c2.match_count, c2.stopped],
@@ -393,6 +394,8 @@ def run(ctx):
         texts = [layout(rng, comps, canonical=True)] + [layout(rng, comps) for _ in range(2)]
         outers = ["", rng.choice(["", "~ a plain description, nothing else ~ ", "~ author: me note: layout test ~\n", "~ flags items that cost more than $5 ~ "]),
                   rng.choice(["", "~x~", "~ see $.variables.n and $other.csv ~\n"])]      # an outer comment may mention a price, a reference, a file
+        # ... and may stand below the csvpath, with or without one above
+        outers = [outers[0], outers[1] + "\x00" + rng.choice(["", "", " ~ reviewed by ops ~"]), outers[2] + "\x00" + rng.choice(["", "\n~ prices are in $ ~", " ~ checked ~\n"])]
         jobs.append((comps, texts, outers, f"c17_{i}.csv"))
     res = pmap(ctx, impl, jobs, chunksize=8)
     lits = []
@@ -402,7 +405,7 @@ def run(ctx):
     bad = coq_bad(ctx, "c17", "Csv.CsvModel Data.DataModel Match.Syntax Harness.C17Cmp", "c17case", lits, ["c17_spec", "c17_agree"], chunk=100)
 
     def case(i):
-        return {"layouts": [oc + "$f[*]" + t for t, oc in zip(jobs[i][1], jobs[i][2])], "tree_written": jobs[i][0], "impl": res[i]}
+        return {"layouts": [oc.partition("\x00")[0] + "$f[*]" + t + oc.partition("\x00")[2] for t, oc in zip(jobs[i][1], jobs[i][2])], "tree_written": jobs[i][0], "impl": res[i]}
     spec_bad, agree_bad = sorted(bad["c17_spec"]), sorted(bad["c17_agree"])
     # run results of the re-laid-out text: equal across layouts (trees without random())
     run_bad, runs_compared = [], 0
